@@ -468,7 +468,7 @@ func (w *Worker) apply(st *Stim) {
 		w.Log.Add(Event{Ev: "topo", Kind: st.Kind, Desc: st.Desc})
 	case "refresh":
 		// one probe round: tick (probe), reply, refresher, tick (rebuild); then publish the proxy's routing table
-		w.refresh()
+		w.refresh(st.Count == 1)
 	case "authfile":
 		w.authFile(st)
 	case "npause":
@@ -509,13 +509,22 @@ func (w *Worker) apply(st *Stim) {
 func (w *Worker) authFile(st *Stim) {
 	var sb strings.Builder
 	enable := st.Count == 1
-	fmt.Fprintf(&sb, "enable: %v\nip_white_list:\n", enable)
-	for _, ip := range st.Reqs[0].Args {
-		fmt.Fprintf(&sb, "  - %s\n", ip)
-	}
+	// the form of the file (st.Cls): "" both keys, "noenable" without the enable key (= disabled), "nolist" without
+	// the list key (= nobody listed), "commented" both keys commented out.  What the form means is the
+	// specification's business (AuthIP!FileOf); the harness only writes the text.
+	pre := map[string]string{"noenable": "# ", "commented": "# "}[st.Cls]
+	fmt.Fprintf(&sb, "%senable: %v\n", pre, enable)
+	lpre := map[string]string{"nolist": "# ", "commented": "# "}[st.Cls]
 	if len(st.Reqs[0].Args) == 0 {
-		sb.Reset()
-		fmt.Fprintf(&sb, "enable: %v\nip_white_list: []\n", enable)
+		fmt.Fprintf(&sb, "%sip_white_list: []\n", lpre)
+	} else {
+		fmt.Fprintf(&sb, "%sip_white_list:\n", lpre)
+		for _, ip := range st.Reqs[0].Args {
+			fmt.Fprintf(&sb, "%s  - %s\n", lpre, ip)
+		}
+	}
+	if st.Cls == "noenable" || st.Cls == "commented" {
+		enable = false
 	}
 	path := w.Cfg.AuthIPDir + "/authip.yaml"
 	if st.Kind == "rename" {
@@ -525,14 +534,17 @@ func (w *Worker) authFile(st *Stim) {
 	} else {
 		_ = os.WriteFile(path, []byte(sb.String()), 0644)
 	}
-	w.Log.Add(Event{Ev: "authfile", Kind: st.Kind, Num: st.Count, Slots: st.Reqs[0].Args})
+	w.Log.Add(Event{Ev: "authfile", Kind: st.Kind, Cls: st.Cls, Num: st.Count, Slots: st.Reqs[0].Args})
 	universe := st.Reqs[0].Slots
+	// (only to know when to stop waiting; the verdict is the specification's)
 	want := map[string]bool{}
 	for _, ip := range universe {
 		want[ip] = !enable
 	}
-	for _, ip := range st.Reqs[0].Args {
-		want[ip] = true
+	if st.Cls != "nolist" && st.Cls != "commented" {
+		for _, ip := range st.Reqs[0].Args {
+			want[ip] = true
+		}
 	}
 	t0 := time.Now()
 	var admitted []string
@@ -556,8 +568,13 @@ func (w *Worker) authFile(st *Stim) {
 	w.Log.Add(Event{Ev: "authsettled", Slots: admitted, Num: int(time.Since(t0) / time.Millisecond)})
 }
 
-func (w *Worker) refresh() {
-	for round := 0; round < 2 && !w.Dead; round++ {
+func (w *Worker) refresh(once bool) {
+	// once: a single probe (the description is seen exactly once), nothing read back
+	rounds := 2
+	if once {
+		rounds = 1
+	}
+	for round := 0; round < rounds && !w.Dead; round++ {
 		w.H.DrainIdle()
 		core.VerifRequestTick()
 		w.H.Wake()
@@ -572,7 +589,7 @@ func (w *Worker) refresh() {
 		w.H.WaitIdle(1500 * time.Millisecond)
 		time.Sleep(2 * time.Millisecond)
 	}
-	if w.Dead {
+	if w.Dead || once {
 		return
 	}
 	core.VerifRequestTick()
